@@ -799,72 +799,109 @@ impl<'a> Visitor<'a> {
     ///
     /// <https://sass-lang.com/documentation/at-rules/import#finding-the-file>
     /// <https://sass-lang.com/documentation/at-rules/import#load-paths>
-    #[allow(clippy::cognitive_complexity, clippy::redundant_clone)]
-    pub fn find_import(&self, path: &Path) -> Option<PathBuf> {
-        let path_buf = if path.is_absolute() {
-            path.into()
-        } else {
-            self.current_import_path
+    pub fn find_import(&self, path: &Path, for_import: bool) -> Option<PathBuf> {
+        if !path.is_absolute() {
+            let relative = self
+                .current_import_path
                 .parent()
                 .unwrap_or_else(|| Path::new(""))
-                .join(path)
-        };
+                .join(path);
 
-        macro_rules! try_path {
-            ($path:expr) => {
-                let path = $path;
-                let dirname = path.parent().unwrap_or_else(|| Path::new(""));
-                let basename = path.file_name().unwrap_or_else(|| OsStr::new(".."));
-
-                let partial = dirname.join(format!("_{}", basename.to_str().unwrap()));
-
-                if self.options.fs.is_file(&path) {
-                    return Some(path.to_path_buf());
-                }
-
-                if self.options.fs.is_file(&partial) {
-                    return Some(partial);
-                }
-            };
-        }
-
-        if path_buf.extension() == Some(OsStr::new("scss"))
-            || path_buf.extension() == Some(OsStr::new("sass"))
-            || path_buf.extension() == Some(OsStr::new("css"))
-        {
-            let extension = path_buf.extension().unwrap();
-            try_path!(path_buf.with_extension(format!(".import{}", extension.to_str().unwrap())));
-            try_path!(path_buf);
-            // todo: consider load paths
-            return None;
-        }
-
-        macro_rules! try_path_with_extensions {
-            ($path:expr) => {
-                let path = $path;
-                try_path!(path.with_extension("import.sass"));
-                try_path!(path.with_extension("import.scss"));
-                try_path!(path.with_extension("import.css"));
-                try_path!(path.with_extension("sass"));
-                try_path!(path.with_extension("scss"));
-                try_path!(path.with_extension("css"));
-            };
-        }
-
-        try_path_with_extensions!(path_buf.clone());
-
-        if self.options.fs.is_dir(&path_buf) {
-            try_path_with_extensions!(path_buf.join("index"));
+            if let Some(found) = self.resolve_import_path(&relative, for_import) {
+                return Some(found);
+            }
+        } else if let Some(found) = self.resolve_import_path(path, for_import) {
+            return Some(found);
         }
 
         for load_path in &self.options.load_paths {
-            let path_buf = load_path.join(path);
-
-            try_path_with_extensions!(&path_buf);
-
-            if self.options.fs.is_dir(&path_buf) {
-                try_path_with_extensions!(path_buf.join("index"));
+            if let Some(found) = self.resolve_import_path(&load_path.join(path), for_import) {
+                return Some(found);
             }
+        }
+
+        None
+    }
+
+    /// `path` with `suffix` appended to its last component. Unlike
+    /// `Path::with_extension` this keeps dots that are part of the name
+    /// (`foo.bar` + `.scss` is `foo.bar.scss`, not `foo.scss`).
+    fn append_to_path(path: &Path, suffix: &str) -> PathBuf {
+        let mut os_string = path.as_os_str().to_owned();
+        os_string.push(suffix);
+        PathBuf::from(os_string)
+    }
+
+    /// Tries `path` itself and then its partial (`_name`).
+    fn try_import_path(&self, path: &Path) -> Option<PathBuf> {
+        if self.options.fs.is_file(path) {
+            return Some(path.to_path_buf());
+        }
+
+        let dirname = path.parent().unwrap_or_else(|| Path::new(""));
+        let basename = path.file_name()?;
+        let partial = dirname.join(format!("_{}", basename.to_str()?));
+
+        if self.options.fs.is_file(&partial) {
+            return Some(partial);
+        }
+
+        None
+    }
+
+    /// Tries `path.sass`, `path.scss` (and their partials), then `path.css`.
+    fn try_import_path_with_extensions(&self, path: &Path) -> Option<PathBuf> {
+        for extension in [".sass", ".scss", ".css"] {
+            if let Some(found) = self.try_import_path(&Self::append_to_path(path, extension)) {
+                return Some(found);
+            }
+        }
+
+        None
+    }
+
+    /// Resolves one candidate location (the importing file's directory or a
+    /// load path, already joined with the URL).
+    fn resolve_import_path(&self, path: &Path, for_import: bool) -> Option<PathBuf> {
+        let extension = path.extension().and_then(OsStr::to_str);
+
+        if let Some(extension @ ("scss" | "sass" | "css")) = extension {
+            // a URL with an explicit extension is only tried literally (and, for
+            // `@import`, as its import-only variant `name.import.ext`)
+            if for_import {
+                let import_only = path.with_extension(format!("import.{}", extension));
+                if let Some(found) = self.try_import_path(&import_only) {
+                    return Some(found);
+                }
+            }
+
+            return self.try_import_path(path);
+        }
+
+        if for_import {
+            if let Some(found) =
+                self.try_import_path_with_extensions(&Self::append_to_path(path, ".import"))
+            {
+                return Some(found);
+            }
+        }
+
+        if let Some(found) = self.try_import_path_with_extensions(path) {
+            return Some(found);
+        }
+
+        if self.options.fs.is_dir(path) {
+            let index = path.join("index");
+
+            if for_import {
+                if let Some(found) =
+                    self.try_import_path_with_extensions(&Self::append_to_path(&index, ".import"))
+                {
+                    return Some(found);
+                }
+            }
+
+            return self.try_import_path_with_extensions(&index);
         }
 
         None
@@ -886,10 +923,10 @@ impl<'a> Visitor<'a> {
     fn import_like_node(
         &mut self,
         url: &str,
-        _for_import: bool,
+        for_import: bool,
         span: Span,
     ) -> SassResult<StyleSheet> {
-        if let Some(name) = self.find_import(url.as_ref()) {
+        if let Some(name) = self.find_import(url.as_ref(), for_import) {
             let name = self.options.fs.canonicalize(&name).unwrap_or(name);
             if let Some(style_sheet) = self.import_cache.get(&name) {
                 return Ok(style_sheet.clone());
